@@ -35,6 +35,8 @@ pub struct GenConfig {
     pub simd_sweep: bool,
     /// non-default colour encodings in the image header: enum variants and embedded ICC profiles
     pub colour: bool,
+    /// patches and splines
+    pub features: bool,
 }
 
 impl GenConfig {
@@ -63,6 +65,7 @@ impl GenConfig {
             safe: true,
             simd_sweep: false,
             colour: true,
+            features: true,
         }
     }
 
@@ -374,6 +377,36 @@ pub fn random_program(rng: &mut Rng, cfg: &GenConfig) -> Program {
                 }
             }
         }
+        if cfg.features {
+            // drawn from a generator of its own (seeded by the frame) so that everything else in
+            // the program is what it was before patches and splines existed
+            let mut frng = Rng::new(f.modular.data_seed ^ 0xFEA7_0000_0001);
+            let mut slots: [Option<(u32, u32)>; 4] = [None; 4];
+            for p in &prog.frames {
+                if Program::frame_can_reference(p) {
+                    // safe: only frames covering the canvas exactly are patch sources (a cropped source
+                    // frame makes the decoder cut rectangles outside its grids: C01 explores that)
+                    slots[p.save_as_reference as usize] = if cfg.safe && p.crop.is_some() { None } else { Some(prog.frame_dims(p)) };
+                }
+            }
+            let dims = prog.frame_dims(&f);
+            // safe: no patches on frames whose extra channels are upsampled differently from colour
+            // (upsample_nonseparable asserts in subgrid for such frames when cropped: see F22)
+            let ec_same = f.ec_upsampling.iter().all(|&u| u == f.upsampling);
+            // ... and none on frames reaching outside the canvas (blend_single indexes out of range)
+            let inside = match f.crop {
+                None => true,
+                Some((x0, y0, w, h)) => x0 >= 0 && y0 >= 0 && x0 as i64 + w as i64 <= prog.width as i64 && y0 as i64 + h as i64 <= prog.height as i64,
+            };
+            if frng.chance(1, 6) && (!cfg.safe || (ec_same && inside)) {
+                // patches are applied before the frame is upsampled: positions are in colour-sample units
+                let pdims = if cfg.safe { prog.color_sample_dims(&f) } else { dims };
+                f.patches = super::features::PatchSpec::random(&mut frng, &prog, pdims, &slots, cfg.safe);
+            }
+            if frng.chance(1, 8) {
+                f.splines = super::features::SplineSpec::random(&mut frng, dims);
+            }
+        }
         prog.frames.push(f);
     }
     if cfg.preview && rng.chance(1, 6) {
@@ -386,6 +419,47 @@ pub fn random_program(rng: &mut Rng, cfg: &GenConfig) -> Program {
     }
     if cfg.upsampling && prog.frames.iter().any(|f| f.upsampling > 1 || f.ec_upsampling.iter().any(|&u| u > 1)) && rng.chance(1, 4) {
         prog.cw_mask = rng.range(1, 7) as u32;
+    }
+    if !cfg.safe {
+        // index-valued header fields pointing past what exists (own generator: see `colour`)
+        let mut hrng = Rng::new(prog.cw_seed ^ 0x1DE7_0000_0001);
+        if hrng.chance(1, 5) {
+            let n_extra = prog.extra.len() as u32;
+            let fi = hrng.below(prog.frames.len() as u64) as usize;
+            let f = &mut prog.frames[fi];
+            let bad = n_extra + hrng.below(3) as u32;
+            match hrng.below(4) {
+                0 => {
+                    f.blend.alpha_channel = bad;
+                    if hrng.chance(1, 2) {
+                        f.blend.mode = *hrng.pick(&[BlendMode::Blend, BlendMode::MulAdd]);
+                    }
+                }
+                1 | 2 if !f.ec_blend.is_empty() => {
+                    let i = hrng.below(f.ec_blend.len() as u64) as usize;
+                    f.ec_blend[i].alpha_channel = bad;
+                    f.ec_blend[i].mode = *hrng.pick(&[BlendMode::Blend, BlendMode::MulAdd]);
+                    if hrng.chance(1, 2) {
+                        // ... while colour itself does not use alpha
+                        f.blend.mode = *hrng.pick(&[BlendMode::Add, BlendMode::Mul, BlendMode::Replace]);
+                    }
+                }
+                _ => {
+                    if let Some(p) = f.patches.as_mut() {
+                        for r in &mut p.refs {
+                            for t in &mut r.targets {
+                                for b in &mut t.2 {
+                                    if hrng.chance(1, 2) {
+                                        b.alpha = bad;
+                                        b.mode = 4 + hrng.below(4) as u32;
+                                    }
+                                }
+                            }
+                        }
+                    }
+                }
+            }
+        }
     }
     prog
 }
@@ -596,6 +670,8 @@ pub fn random_frame(rng: &mut Rng, cfg: &GenConfig, prog: &Program, is_last: boo
         toc_perm_seed: rng.next_u64(),
         modular,
         vardct: None,
+        patches: None,
+        splines: None,
     }
 }
 
@@ -642,6 +718,8 @@ impl FrameSpec {
             toc_permuted: false,
             toc_perm_seed: 0,
             vardct: None,
+            patches: None,
+            splines: None,
             modular: ModularSpec {
                 global: None,
                 groups_use_global: false,
